@@ -121,6 +121,9 @@ class World:
             x = self.s[n]
             multi = isinstance(x, tmo.MultiStream)
             try:
+                if x._imol._chemicals is not x._thermo.chemicals:
+                    # a failed (out-of-contract) package change left indexer and stream on different packages
+                    raise RuntimeError('inconsistent object')
                 if multi:
                     ph = sorted(x.phases)
                     fl = {p: self._vec(x, x.imol.data.rows[x.imol.get_phase_index(p)]) for p in ph}
